@@ -10,6 +10,7 @@ struct ZooGenCfg
 	uint32_t maxLen = 12;
 	bool allowEmpty = true;      // KF-XML-EMPTY-CONTAINER: false for XML in 63 of 64 runs
 	bool smartPointersSet = false;
+	bool nonEmptyStrings = false;
 };
 
 inline uint32_t ZLen(Source& s, Lane l, const ZooGenCfg& g)
@@ -24,6 +25,7 @@ inline int32_t ZInt(Source& s, Lane l) { return static_cast<int32_t>(GenSigned(s
 inline std::string ZStr(Source& s, Lane l, const ZooGenCfg& g)
 {
 	std::string r = ToUtf8(GenText(s, l, ProfileFor(g.archive), 10));
+	if (g.nonEmptyStrings && r.empty()) r = "n";
 	// text formats load "" as "not loaded"; inside containers of strings that is still an empty string, fine
 	return r;
 }
@@ -73,6 +75,7 @@ inline void GenZoo(Source& s, Lane l, Zoo& z, const ZooGenCfg& g)
 	z.s16 = ToUtf16(GenText(s, l, ProfileFor(g.archive), 10));
 	z.s32 = GenText(s, l, ProfileFor(g.archive), 10);
 	{ auto t = GenText(s, l, ProfileFor(g.archive), 10); z.ws.assign(t.begin(), t.end()); }
+	if (g.nonEmptyStrings) { if (z.s16.empty()) z.s16 = u"n"; if (z.s32.empty()) z.s32 = U"n"; if (z.ws.empty()) z.ws = L"n"; }
 	n = ZLen(s, l, g);
 	for (uint32_t i = 0; i < n; ++i)
 	{
@@ -104,6 +107,7 @@ inline void GenZoo(Source& s, Lane l, Zoo& z, const ZooGenCfg& g)
 		r.flag = s.chance(l, 1, 2);
 		if (s.chance(l, 1, 2)) r.opt = ZInt(s, l);
 		r.wide = ToUtf16(GenText(s, l, g.archive == A_XML ? TextProfile::Xml : TextProfile::Csv, 8));
+		if (g.nonEmptyStrings) { if (r.name.empty()) r.name = "n"; if (r.wide.empty()) r.wide = u"n"; }
 		z.rows.push_back(r);
 	}
 }
